@@ -85,7 +85,7 @@ class SessionCase(object):
             rng = random.Random(wk["seed"])
             walker = gen.Walker(rng, wk.get("flavour", "mixed"), tuple(wk.get("addrs", (0,))),
                                 wk.get("persistent"), wk.get("keepalive"), wk.get("level"),
-                                wk.get("maxwin", 16))
+                                wk.get("maxwin", 16), stall=wk.get("stall", False))
             walker.walk(w, wk["n"])
         if self.finish:
             w.finish()
